@@ -20,6 +20,7 @@ EXPLANATION = (
     "and the worker re-checks it after creating the process; result() raises the stored exception because "
     "the running interpreter's concurrent.futures.Future reads the same private attribute. Interleavings "
     "themselves are not explored (that is model checking, a different family)."
+    ' Also evaluated here: solving-context scope (C16 R16.5): every solver job of a test goes through the executor that shutdown reaches.'
 )
 ASSUMPTIONS = [
     "threading.Lock / Event semantics; CPython's concurrent.futures.Future implementation (parsed from the running interpreter's stdlib)",
